@@ -141,7 +141,16 @@ class Real:
                                                  "drop": bare `.timer(...)`, result discarded |
                                                  "over:j": th_j::.timer(...) (timer j's handle is no
                                                  longer referenced by the program)
+                                                 optional 5th element `on` (Klong path): the NAME the
+                                                 timer is created on ("cbJ" / "alI"; default: a fresh
+                                                 name cbK bound to a fresh function)
          ["forget", k]                           th_k::0 - the program drops its reference
+         ["alias", i, k]                         alI::<name timer k was created on>  (same function
+                                                 object under a second name)
+         ["rebind", name]                        name::{<fresh function>}  (any name, whether or not a
+                                                 timer was created on it)
+       Klong path: every function is `{tk(fid)}` with a globally unique fid, so the tick event says
+       WHICH function ran; a timer must run whatever its creation name is bound to at that tick.
          ["pass", lat]                           run the loop once at (next deadline + lat)
          ["timerc", k] | ["redefine", k, v] | ["advance", d]
     """
@@ -170,7 +179,10 @@ class Real:
             from klongpy import KlongInterpreter
             self.klong = KlongInterpreter()
             self.klong[".system"] = {"klongloop": self.loop, "ioloop": self.loop}
-            self.klong["tk"] = lambda x, y: self.hook(int(x), int(y))
+            self.klong["tk"] = lambda x: self.hook_klong(int(x))
+        self.names = {}         # Klong path: name -> (fid, token of the function object)
+        self.tname = []         # per timer: the name it was created on (None on the direct path)
+        self.next_fid = 1
 
     # ---- observation helpers
     def digest(self):
@@ -192,6 +204,15 @@ class Real:
         self.cur.append(ev)
 
     # ---- the callback every timer runs
+    def hook_klong(self, fid):
+        """Klong function `{tk(fid)}` ran: the timer is the owner of the loop handle now running"""
+        cur = self.loop.current
+        if cur is None or cur["k"] is None or cur["k"] >= len(self.meta):
+            self.oracle_fail("timer:callback-outside-dispatch", "callbacks run from their timer's loop handle",
+                             f"function {fid} called with no timer handle running")
+            return 0
+        return self.hook(cur["k"], fid)
+
     def hook(self, k, ver):
         L = self.loop
         if self.in_cb:
@@ -227,7 +248,9 @@ class Real:
             elif act.startswith("other:"):
                 self.do_timerc(int(act.split(":")[1]), inside=k)
             elif act.startswith("redef:"):
-                self.do_redefine(k, int(act.split(":")[1]))
+                fid, others = self.do_redefine(k, int(act.split(":")[1]), inside=True)
+                self.dispatch_info["act"] = f"redef:{fid}"
+                self.dispatch_info["extra"] = others
             elif act == "raise":
                 self.emit(f"raised:{k}")
                 self.spec.raised(k)
@@ -261,6 +284,12 @@ class Real:
             impl = f"error {e}"
         self.cur = []
         self.disp.append((line, impl))
+        for j, fid in info.get("extra", []):      # other timers created on the rebound name
+            self.obs.append(f"redefined:{j}:{fid}")
+            try:
+                self.disp.append((f"redefine k={j} v={fid}", f"ok ev=redefined:{j}:{fid} {self.digest()}"))
+            except ValueError as e:
+                self.disp.append((f"redefine k={j} v={fid}", f"error {e}"))
 
     # ---- operations
     def held(self, k):
@@ -290,18 +319,71 @@ class Real:
         self.spec.timerc(k, r, inside)
         return r
 
-    def do_redefine(self, k, v):
-        if self.klong:
-            self.klong(f"cb{k}::{{tk({k};{v})}}")
-        else:
-            self.meta[k]["pyver"] = v       # a plain Python callable is its own binding
-        self.emit(f"redefined:{k}:{v}")
-        self.spec.redefined(k, v)
+    def define(self, name):
+        """name::{tk(fid)} with a fresh function; returns fid"""
+        fid = self.next_fid
+        self.next_fid += 1
+        self.klong(f"{name}::{{tk({fid})}}")
+        self.names[name] = (fid, fid)
+        self.spec.bind(name, fid)
+        return fid
 
-    def do_create(self, interval, script, hold="keep"):
+    def do_redefine(self, k, v, inside=False):
+        """rebind the name timer k was created on; returns (fid, [(j, fid) other timers on that name])"""
+        if not self.klong:
+            self.meta[k]["pyver"] = v       # a plain Python callable is its own binding
+            self.emit(f"redefined:{k}:{v}")
+            self.spec.redefined(k, v)
+            return v, []
+        name = self.tname[k]
+        fid = self.define(name)
+        self.emit(f"redefined:{k}:{fid}")
+        others = [(j, fid) for j, n in enumerate(self.tname) if n == name and j != k]
+        if not inside:
+            self.sync(f"redefine k={k} v={fid}")
+            for j, _ in others:
+                self.emit(f"redefined:{j}:{fid}")
+                self.sync(f"redefine k={j} v={fid}")
+        self.ctx.bump("rebind:timer-name")
+        return fid, others
+
+    def do_rebind(self, name):
+        """name::{fresh function} for any known name"""
+        if not self.klong or name not in self.names:
+            return
+        users = [j for j, n in enumerate(self.tname) if n == name]
+        if users:
+            self.do_redefine(users[0], 0)
+        else:
+            self.define(name)
+            self.ctx.bump("rebind:other-name")
+
+    def do_alias(self, i, k):
+        if not self.klong or k >= len(self.tname):
+            return
+        old = self.tname[k]
+        new = f"al{i}"
+        if new == old or any(n == new for n in self.tname):
+            return                      # keep it simple: never re-point a name a timer was created on
+        self.klong(f"{new}::{old}")
+        self.names[new] = self.names[old]
+        self.spec.bind(new, self.names[old][0])
+        self.ctx.bump("alias")
+
+    def do_create(self, interval, script, hold="keep", on=None):
         from klongpy.sys_fn_timer import _call_periodic, KGTimerHandler
         k = len(self.ths)
         L = self.loop
+        name, shared = None, False
+        if self.klong:
+            if on is not None and on in self.names:
+                name = on
+            else:
+                name = f"cb{k}"
+                self.define(name)
+            # the same function object is bound under another name as well: which name the
+            # wrapper follows is then decided by KGFnWrapper._find_symbol's search order
+            shared = sum(1 for v in self.names.values() if v[1] == self.names[name][1]) > 1
         over = None
         if hold.startswith("over:"):
             over = int(hold.split(":")[1])
@@ -313,8 +395,7 @@ class Real:
         try:
             if self.klong:
                 assert interval % SEC == 0
-                self.klong(f"cb{k}::{{tk({k};0)}}")
-                call = f'.timer("t{k}";{interval // SEC};cb{k})'
+                call = f'.timer("t{k}";{interval // SEC};{name})'
                 th = self.klong(call if hold == "drop" else f"{var}::{call}")
             else:
                 th = _call_periodic(L, f"t{k}", interval * TICK if interval else 0,
@@ -339,8 +420,20 @@ class Real:
             self.ths.append(lambda th=th: th)
             self.var.append(var)
         del th
+        self.tname.append(name)
         self.emit(f"created:{k}:{self.meta[k]['start']}:{interval}")
-        self.spec.created(k, self.meta[k]["start"], interval)
+        self.spec.created(k, self.meta[k]["start"], interval, name, shared)
+        if shared:
+            self.ctx.bump("created-on-shared-function")
+        elif on is not None and name == on:
+            self.ctx.bump("created-on-existing-name")
+
+    def after_create(self, k):
+        """Klong path: tell the model which function the creation name is bound to"""
+        if self.klong:
+            fid = self.names[self.tname[k]][0]
+            self.emit(f"redefined:{k}:{fid}")
+            self.sync(f"redefine k={k} v={fid}")
 
     def sync(self, line):
         """send one non-dispatch input to the model and compare"""
@@ -371,6 +464,7 @@ class Real:
             self.spec.dead = True
             return
         self.spec.dead = True
+        self.failed = True      # the run has left the property: no model comparison beyond this point
         self.ctx.oracle_fail(key, self.case, expected, observed,
                              "observed events so far: " + ";".join(self.obs[-12:]))
 
@@ -392,8 +486,13 @@ class Real:
                     gc.collect()        # CPython frees an unreferenced handler at once; make it explicit
                     self.collect_due = False
                 if op == "create":
-                    self.do_create(st[1], st[2], st[3] if len(st) > 3 else "keep")
+                    self.do_create(st[1], st[2], st[3] if len(st) > 3 else "keep", st[4] if len(st) > 4 else None)
                     self.sync(f"create interval={st[1]}")
+                    self.after_create(len(self.ths) - 1)
+                elif op == "alias":
+                    self.do_alias(st[1], st[2])
+                elif op == "rebind":
+                    self.do_rebind(st[1])
                 elif op == "forget":
                     self.forget(st[1])
                 elif op == "advance":
@@ -406,11 +505,16 @@ class Real:
                 elif op == "redefine":
                     if st[1] < len(self.ths):
                         self.do_redefine(st[1], st[2])
-                        self.sync(f"redefine k={st[1]} v={st[2]}")
+                        if not self.klong:
+                            self.sync(f"redefine k={st[1]} v={st[2]}")
                 elif op == "pass":
                     self.do_pass(st[1])
                 if self.exc:
                     self.ctx.bump("callback-exceptions", len(self.exc))
+                    stray = [e for e in self.exc if "callback script: raise" not in e]
+                    if stray and not self.spec.dead:
+                        self.oracle_fail("timer:loop-exception", "the runner raises only what the callback raised",
+                                         "; ".join(stray)[:300])
                     self.exc = []
         finally:
             L.close()
@@ -455,6 +559,7 @@ class Spec:
     def __init__(self, real):
         self.real = real
         self.tm = {}
+        self.names = {}         # name -> function id currently bound to it
         self.dead = False
         self.ticked = set()
         self.pass_t = None
@@ -463,9 +568,12 @@ class Spec:
         if not self.dead:
             self.real.oracle_fail(key, exp, obs)
 
-    def created(self, k, start, interval):
+    def bind(self, name, fid):
+        self.names[name] = fid
+
+    def created(self, k, start, interval, name=None, shared=False):
         self.tm[k] = dict(live=True, start=start, I=interval, nb=start + interval, last_b=0, ver=0, cause=None,
-                          late=0, fresh=True, runs=0)
+                          late=0, fresh=True, runs=0, name=name, shared=shared)
 
     def next_due(self, now):
         ds = [now if m["I"] == 0 else m["nb"] + m["late"] for m in self.tm.values() if m["live"]]
@@ -520,8 +628,13 @@ class Spec:
         else:
             if T < m["start"]:
                 self.fail("timer:early-tick", f">= {m['start']}", f"tick at {T}")
-        if ver != m["ver"]:
-            self.fail("timer:reresolve", f"callback version {m['ver']} (latest definition)", f"version {ver} ran")
+        want = self.names[m["name"]] if m["name"] is not None else m["ver"]
+        if ver != want:
+            # created while the function object was also bound under another name: a separate,
+            # specific class (the wrapper can only look the VALUE up, first name found wins)
+            key = "timer:reresolve:aliased-at-creation" if m["shared"] else "timer:reresolve"
+            self.fail(key, f"function {want} runs (the current binding of {m['name'] or 'the callback'})",
+                      f"function {ver} ran")
         m["late"] = 0
 
     def after_handle(self, k, drift):
@@ -609,16 +722,61 @@ def gen_case(rng, long=False):
             steps.append(["timerc", rng.choice(list(range(nt)) + [nt])])
         elif r < 0.90:
             steps.append(["redefine", rng.randrange(nt), rng.choice([1, 2, 4])])
-        elif r < 0.93:
+        elif r < 0.92:
             steps.append(["forget", rng.randrange(nt)])
-        elif r < 0.97 and len(intervals) < 4:
+        elif r < 0.94:
+            steps.append(["alias", rng.randrange(2), rng.randrange(nt)])
+        elif r < 0.955:
+            steps.append(["rebind", rng.choice(["al0", "al1", "cb0", "cb1"])])
+        elif r < 0.985 and len(intervals) < 4:
             iv2 = rng.choice(ivs)
             intervals.append(iv2)
             steps.append(["create", iv2, gen_script(rng, rng.randrange(1, 5), iv2, nt),
-                          rng.choice(["keep", "drop", f"over:{rng.randrange(nt)}"])])
+                          rng.choice(["keep", "drop", f"over:{rng.randrange(nt)}"]),
+                          rng.choice([None, None, "al0", "al1", "cb0", "cb1"])])
         else:
             steps.append(["advance", rng.choice([0, 1, 5, SEC])])
     return dict(path=path, res=res, minadv=minadv, t0=t0, steps=steps)
+
+
+def calm_script(rng, n):
+    """mostly plain true returns, so that timers stay alive through a naming history"""
+    out = []
+    for _ in range(n):
+        act = rng.choice(["none"] * 8 + ["redef:1", "other:0"]) if rng else "none"
+        out.append([0, rng.choice([0, 0, 1, 400]) if rng else 0, 1, act, 0])
+    return out
+
+
+def alias_case(iv, cancel_a, rebind_before, after, third, rng=None, lat=0, t0=1000 * SEC):
+    """naming histories (Klong path): timer A on cb0; the function is kept under a second name al0;
+    cb0 is (or is not) re-bound to a different function; timer B is created on al0; later al0 / cb0
+    are re-bound; optionally a third timer is created on cb0.  Every timer must run what ITS creation
+    name is bound to at each tick."""
+    steps = [["create", iv, calm_script(rng, 10)], ["pass", lat], ["pass", lat]]
+    if cancel_a:
+        steps.append(["timerc", 0])
+    steps.append(["alias", 0, 0])                          # al0::cb0
+    if rebind_before:
+        steps.append(["rebind", "cb0"])                    # cb0::{other function}
+    steps.append(["advance", 300])
+    steps.append(["create", iv, calm_script(rng, 10), "keep", "al0"])
+    steps += [["pass", lat]] * 3
+    if after in ("al0", "both"):
+        steps += [["rebind", "al0"], ["pass", lat], ["pass", lat]]
+    if after in ("cb0", "both"):
+        steps += [["rebind", "cb0"], ["pass", lat], ["pass", lat]]
+    if third:
+        steps += [["create", iv, calm_script(rng, 4), "keep", "cb0"], ["pass", lat], ["rebind", "cb0"],
+                  ["pass", lat], ["pass", lat]]
+    steps += [["timerc", 1], ["pass", lat], ["timerc", 0]]
+    return dict(path="klong", res=2, minadv=2, t0=t0, steps=steps)
+
+
+def enum_alias_cases():
+    for iv, cancel_a, rebind_before, after, third in itertools.product(
+            [0, SEC, 2 * SEC], [0, 1], [0, 1], ["none", "al0", "cb0", "both"], [0, 1]):
+        yield alias_case(iv, cancel_a, rebind_before, after, third)
 
 
 def enum_cases():
@@ -672,6 +830,11 @@ WITNESSES = [
     dict(path="direct", res=1, minadv=1, t0=11, steps=[
         ["create", 3, [[0, 1, 1, "none", 0]] * 4, "drop"], ["create", 0, [[0, 0, 1, "none", 0]] * 3, "drop"]]
         + [["pass", 0]] * 10),
+    # names: timer a on cb0, cancelled; al0::cb0; cb0 re-bound; timer b on al0 follows al0
+    alias_case(SEC, 1, 1, "al0", 0),
+    # known finding (findings.d/C15.json): al0::cb0 while cb0 still holds the function, timer on al0,
+    # then al0 re-bound - the wrapper follows cb0, the first name found for the value
+    alias_case(SEC, 1, 0, "al0", 0),
 ]
 
 
@@ -753,7 +916,9 @@ def run(ctx):
                 "cancel self/cancel other/redefine/raise, call_later drift) x start times x loop passes at latency {on the "
                 "deadline, within resolution before it, too early, +1/3 interval, +1 1/3 interval, random} x external "
                 ".timerc / redefinition / creation between passes x handle retention (th::.timer(...) kept, bare .timer(...) "
-                "discarded, th::0 or th::.timer(<second>) later, with gc.collect()); distinct = distinct scenarios; non-trivial = at least two ticks")
+                "discarded, th::0 or th::.timer(<second>) later, with gc.collect()) x naming histories (function kept under a "
+                "second name, names re-bound between timer creations, timers created on aliases / on re-used names; "
+                "every function has a unique id so the tick says which function ran); distinct = distinct scenarios; non-trivial = at least two ticks")
     ctx.assumptions += [
         "earliness < minAdvance: at least one loop resolution passes between the loop's dispatch decision and the "
         "callback's start (the virtual loop advances the clock on entry to every handle); the frozen-clock regime is "
@@ -770,8 +935,18 @@ def run(ctx):
             cases += [json.loads(p.read_text()) for p in sorted(cdir.glob("*.json"))]
         for c in cases:
             run_case(ctx, c.get("case", c), drv)
+        for case in enum_alias_cases():
+            run_case(ctx, case, drv)
+            ctx.bump("enumerated-naming")
         n = 500 if quick else 6000
         for i in range(n):
+            if i % 5 == 4:       # seeded naming history
+                r = ctx.rng
+                case = alias_case(r.choice([0, SEC, 2 * SEC, 5 * SEC]), r.randrange(2), r.randrange(2),
+                                  r.choice(["none", "al0", "cb0", "both"]), r.randrange(2), rng=r,
+                                  lat=r.choice([0, 0, -1, 341, 1400]), t0=r.choice([0, 1000 * SEC + 1, 123457]))
+                run_case(ctx, case, drv)
+                continue
             case = gen_case(ctx.rng, long=(not quick and i % 3 == 0))
             r = run_case(ctx, case, drv)
             if i < 4:
